@@ -13,8 +13,16 @@ one() {
   grep -q '^+++ b/sqli' "$d/patch.diff" && ids="$SQLI $ids"
   grep -q '^+++ b/\(xss\|html5\)' "$d/patch.diff" && ids="$XSS $ids"
   case "$n" in C09*) ids="$ids C09";; esac
+  if [ -n "${SEED_MIN:-}" ]; then
+    # short form: the check of the property the seed was written against, the differential check of its side, and C05 / C09 as above
+    t="${n%%-*}"; m="$t"
+    grep -q '^+++ b/sqli' "$d/patch.diff" && m="$m C06"
+    grep -q '^+++ b/\(xss\|html5\)' "$d/patch.diff" && m="$m C07"
+    case " $ids " in *" C05 "*) m="$m C05";; esac
+    ids=$(echo $m | tr ' ' '\n' | awk '!s[$0]++' | tr '\n' ' ')
+  fi
   bash .bin/seedcheck.run.sh "$d" "$n" $ids 2>&1 | grep -a "RESULT\|INVALID" | cut -c1-200
 }
-export -f one; export SQLI XSS
+export -f one; export SQLI XSS SEED_MIN
 ls seeded | grep -- "${2:-.}" | xargs -P "$LANES" -I{} bash -c 'one {}'
 python3 tools/mkseedtable.py
